@@ -285,3 +285,93 @@ def die_initial_grid_any_size(S):
              len(calls) == 1 and calls[0][0] is d.bounding_box and sand(seq(calls[0][1], nr), seq(calls[0][2], nc)))
     S.ensure("initial_grid_any.refinable_regions_are_the_grid", d.floorplanning_rectangles()[0] == token and d.floorplanning_rectangles()[1] == [] and
              len(d.blockages) == 0)
+
+
+# ---- split_rectangles: both worklist loops cut (one arbitrary iteration of the repository's loop body) -----------------------
+
+from collections import deque  # noqa: E402
+from vf import loopcut  # noqa: E402
+
+
+def _pieces_tile(S, pre, rho, pieces, lim, compliant_required):
+    """the pieces that replace rho in the work lists: inside rho with its tag, pairwise disjoint, covering rho's area"""
+    R = box(rho)
+    S.ensure(pre + ".pieces_inside_the_popped_rectangle_with_its_tag", sand(*[sand(box_inside(box(p), R), attrs_eq(p, rho)) for p in pieces]))
+    S.ensure(pre + ".pieces_pairwise_disjoint",
+             sand(*[interiors_disjoint(box(pieces[i]), box(pieces[j])) for i in range(len(pieces)) for j in range(i + 1, len(pieces))]) if len(pieces) > 1 else True)
+    S.ensure(pre + ".pieces_cover_the_popped_rectangle", seq(sum(p.shape.w * p.shape.h for p in pieces), rho.shape.w * rho.shape.h))
+    if compliant_required:
+        S.ensure(pre + ".pieces_within_the_aspect_ratio_limit", sand(*[ratio(p.shape.w, p.shape.h) <= lim for p in pieces]))
+
+
+PHASE1 = lambda cond: "q" in cond.replace("aspect_ratio", "") and "heap" not in cond      # noqa: E731   while len(q) > 0
+PHASE2 = lambda cond: "heap" in cond and "n" in cond.replace("len", "")                       # noqa: E731   while len(heap) < n
+
+
+@contract(P, functions=[G + "split_rectangles"], leak_ok=True, note="loop cut of the first (ratio-driven) while loop: work list havocked to one arbitrary rectangle")
+def split_rectangles_phase1_iteration(S):
+    """Inductive step of phase 1 for ANY number of rectangles and halvings: with the work list holding an arbitrary rectangle
+    rho, one iteration of the real loop body either moves rho (compliant) to the result heap or replaces it by two halves
+    that tile it and have a strictly smaller aspect ratio (termination measure); nothing else is touched."""
+    rho = mk_rect(S, "rho", S.choice("reg", ["_", "A"]))
+    lim = S.real("limit")
+    S.assume(lim > 1.415)
+    n = S.int("n", lo=1)
+    state = {}
+
+    def hv(name, old):
+        if name == "q":
+            return deque([rho])
+        return old
+    code, info = loopcut.one_iteration_of_while(geo.split_rectangles, PHASE1, ["q"], ["q", "heap"])
+    S.cover("loop-cut: while " + info["condition"])
+    cut = loopcut.instantiate(code, geo.split_rectangles, hv)
+    out = S.call(cut, [], lim, n)
+    S.ensure("phase1.no_raise", out.ok)
+    if not out.ok:
+        return
+    q, heap = list(out.value["q"]), [h.rect for h in out.value["heap"]]
+    rr = ratio(rho.shape.w, rho.shape.h)
+    S.ensure("phase1.compliant_rectangle_moves_to_the_result_unchanged_else_is_halved",
+             sif(rr <= lim, len(q) == 0 and len(heap) == 1 and heap[0] is rho, len(q) == 2 and len(heap) == 0))
+    if len(q) == 2:
+        _pieces_tile(S, "phase1", rho, q, lim, False)
+        S.ensure("phase1.ratio_strictly_decreases", sand(*[ratio(p.shape.w, p.shape.h) < rr for p in q]))
+    S.ensure("phase1.result_heap_only_receives_compliant_rectangles", sand(*[ratio(p.shape.w, p.shape.h) <= lim for p in heap]))
+    S.ensure("phase1.heap_entries_are_keyed_by_minus_area", sand(*[seq(h.area, -(h.rect.shape.w * h.rect.shape.h)) for h in out.value["heap"]]))
+
+
+@contract(P, functions=[G + "split_rectangles"], budget_s=600, exact_feas_ms=50, leak_ok=True,
+          note="loop cut of the second (count-driven) while loop: heap havocked to one arbitrary compliant rectangle")
+def split_rectangles_phase2_iteration(S):
+    """Inductive step of phase 2: with the heap holding an arbitrary COMPLIANT rectangle rho (heap invariant) and fewer than
+    n results, one iteration of the real loop body replaces rho by at least two rectangles that tile it, inherit its tag and
+    are all within the limit again (for every limit > sqrt 2, in particular below 2)."""
+    rho = mk_rect(S, "rho", S.choice("reg", ["_", "A"]))
+    lim = S.real("limit")
+    S.assume(lim > 1.415)
+    S.assume(ratio(rho.shape.w, rho.shape.h) <= lim)
+    holder = {}
+
+    def hv(name, old):
+        if name == "heap":
+            cls = holder["cls"]
+            return [cls(-rho.area, rho)]
+        if name == "q":
+            return deque()
+        return old
+    code, info = loopcut.one_iteration_of_while(geo.split_rectangles, PHASE2, ["heap", "q"], ["q", "heap"])
+    S.cover("loop-cut: while " + info["condition"])
+    # the heap entries are instances of a class local to the function: fetch it from a first (concrete) phase-1 cut run
+    code1, _ = loopcut.one_iteration_of_while(geo.split_rectangles, PHASE1, ["q"], ["heap"])
+    probe = Rectangle(center=Point(0.5, 0.5), shape=Shape(1.0, 1.0))
+    first = loopcut.instantiate(code1, geo.split_rectangles, lambda nm, old: deque([probe]) if nm == "q" else old)([], 2.0, 1)
+    holder["cls"] = type(first["heap"][0])
+    cut = loopcut.instantiate(code, geo.split_rectangles, hv)
+    out = S.call(cut, [], lim, 2)
+    S.ensure("phase2.no_raise", out.ok)
+    if not out.ok:
+        return
+    q, heap = list(out.value["q"]), [h.rect for h in out.value["heap"]]
+    S.ensure("phase2.work_list_is_empty_again_and_count_grows", len(q) == 0 and len(heap) >= 2)
+    _pieces_tile(S, "phase2", rho, heap, lim, True)
